@@ -729,6 +729,9 @@ def unit_phase(ck, drv, n, weights, oracle, label):
 QUIRK_PROBES = [
     ("null-below-last-applied",
      {g.LAST_APPLIED: ["d"], "d": {"e": None, "f": 1}}, {}, {"d": {"f": 1}}),
+    ("keyed-non-list-below-last-applied",
+     {g.LAST_APPLIED: ["k2"], g.AS_MAP: {"k2": ["id"]},
+      "k2": [{"id": "db", "d": 7, g.AS_MAP: {"d": ["name"]}}]}, {"k2": [{"id": "db", "d": 7}]}, {"k2": [{"id": "db"}]}),
     ("member-named-ownerReferences",
      {g.AS_MAP: {"m": ["name"]}, "m": [{"name": "ownerReferences", "v": 1}, {"name": "b"}]},
      {"m": [{"name": "ownerReferences", "v": 2}, {"name": "b"}]}, None),
